@@ -93,7 +93,9 @@ def do_lognormal_mv(c):
 
 def do_poisson(c):
     k, sup, r = T(c["k"]), T(c["support"]), T(c["rate"])
-    return [f1(Poisson.pmf(k, r)), f1(Poisson.logpmf(k, r)), f1(Poisson.cdf(sup, r)),
+    pm, lp = f1(Poisson.pmf(k, r)), f1(Poisson.logpmf(k, r))
+    # (twice: the model reports the explicit-infinity reading and the IEEE reading of the same formula)
+    return [pm, lp, pm, lp, f1(Poisson.cdf(sup, r)),
             f1(Poisson.logcdf(sup, r)), f1(Poisson.mean(r)), f1(Poisson.variance(r))]
 
 
@@ -154,7 +156,9 @@ def do_quad_poisson(c):
     lcdf = Poisson.logcdf(k, r)
     cs = torch.cumsum(pmf, 0)
     mean = float(Poisson.mean(r)); var = float(Poisson.variance(r))
-    return {"total": float(pmf.sum()), "mean_sum": float((k * pmf).sum()),
+    v = Poisson.validate(rate=r, support=k)
+    return {"valid": bool(torch.as_tensor(v["rate"]).all()) and bool(torch.as_tensor(v["support"]).all()),
+            "total": float(pmf.sum()), "mean_sum": float((k * pmf).sum()),
             "var_sum": float(((k - mean) ** 2 * pmf).sum()), "mean": mean, "var": var,
             "max_cdf_err": float((cs - cdf).abs().max()),
             "max_exp_logpmf_err": float((elp - pmf).abs().max()),
